@@ -4,7 +4,6 @@ CONSTANTS
  MaxItems = 2
  MaxTicket = 8
  MaxStale = 1
- MaxGen = 2
  AllowRemove = TRUE
  Dev = {}
 INVARIANTS TypeOK NoLostWakeup NoStreamLost ReadyHasSignal FairBoundTight
